@@ -106,6 +106,22 @@ def run(ctx):
         cases.append(c)
     cases.sort(key=lambda c: (c["kind"], c.get("xs", []), c.get("ys", []), c.get("ds", [])))
     aux = aux_cases(q)
+    # the spec's geometric-mean rule for powers of two (GeoOK) does not depend on the sample size:
+    # scale it to "several hundred values of widely varying magnitude" (property quantifier)
+    import random
+    rnd = random.Random(ctx.seed)
+    geo = []
+    for n in (36, 70, 128, 300, 700):
+        for spread in (0, 8, 40, 300):
+            for base in (-300, -30, 0, 30, 300):
+                ks = [base + rnd.randint(-spread, spread) for _ in range(n - 1)]
+                last = base - (sum(ks) + base) % n          # make the sum divisible by n
+                ks.append(last)
+                if (sum(ks) % n) != 0 or max(abs(k) for k in ks) > 900:
+                    continue
+                rnd.shuffle(ks)
+                geo.append({"kind": "geoscaled", "xs": ks, "min": min(ks), "max": max(ks), "salt": len(geo)})
+    cases = cases + geo
     for c in cases:
         c["salt"] = salt_of(c)
     allc = cases + aux
